@@ -30,6 +30,32 @@ class Prune(Exception):
     """Raised by a body (via ch.prune()) for an infeasible combination: not a leaf."""
 
 
+class LeafTimeout(Exception):
+    """A real call did not return within the horizon a driver gave it (non-termination is an outcome, not a hang)."""
+
+
+class time_limit(object):
+    """with time_limit(seconds): ...   raises LeafTimeout in the (single-threaded) worker when the block overruns."""
+
+    def __init__(self, seconds):
+        self.seconds = seconds
+
+    def _fire(self, signum, frame):
+        raise LeafTimeout('no result within %ss' % self.seconds)
+
+    def __enter__(self):
+        import signal
+        self._old = signal.signal(signal.SIGALRM, self._fire)
+        signal.setitimer(signal.ITIMER_REAL, self.seconds)
+        return self
+
+    def __exit__(self, *exc):
+        import signal
+        signal.setitimer(signal.ITIMER_REAL, 0)
+        signal.signal(signal.SIGALRM, self._old)
+        return False
+
+
 class Acc(object):
     """Per-shard accumulator, merged in the master."""
     MAX_OUTCOMES = 5000
